@@ -30,3 +30,23 @@ pub struct Filterable {
     pub color: String,
     pub seq: u32,
 }
+
+#[derive(Clone, Debug, PartialEq, DdsType)]
+#[dust_dds(nested)]
+pub struct InnerKey {
+    pub a: u8,
+    pub b: u16,
+}
+
+/// keyed type with a nested struct key, a string key and a late numeric key
+#[derive(Clone, Debug, PartialEq, DdsType)]
+pub struct RichKey {
+    #[dust_dds(key)]
+    pub k: InnerKey,
+    pub pad: u32,
+    #[dust_dds(key)]
+    pub name: String,
+    #[dust_dds(key)]
+    pub n: i64,
+    pub blob: Vec<u8>,
+}
